@@ -23,7 +23,7 @@
      first_read p is u  cycle u is a read strobe at the first address of either register *)
 From Coq Require Import ZArith List Bool Lia.
 From Soc Require Import Lib.Bits Lib.Res.
-From Soc Require Model.Mux Model.MuxSpec Model.Event Model.MemoryMap Model.MemSpec Model.CsrDecoder.
+From Soc Require Model.Mux Model.MuxSpec Model.Event Model.MemoryMap Model.MemSpec Model.CsrDecoder Proofs.CsrDecoder Proofs.Event.
 From Soc Require Import Model.CsrEvent Proofs.CsrEvent.
 Import ListNotations.
 Open Scope Z_scope.
@@ -255,6 +255,56 @@ Proof.
 Qed.
 Print Assumptions C14_pending_not_cleared_without_write.
 
+(* what a completed write delivers, word by word and bit by bit: word j read back is the data written to word j,
+   clipped to the mask bits that word carries (0 for padding words); mask bit k is bit k mod dw of word k / dw *)
+Theorem C14_written_value_words : forall p r dj j, valid p -> (r = reg_en p \/ r = reg_pe p) -> 0 <= j ->
+  Mux.word (pdw p) (pn p) j (written_value p r dj) =
+  trunc (Z.max 0 (Z.min (pn p) ((j + 1) * pdw p) - j * pdw p)) (dj j).
+Proof. exact word_written. Qed.
+Print Assumptions C14_written_value_words.
+
+Theorem C14_written_value_bits : forall p r dj k, valid p -> (r = reg_en p \/ r = reg_pe p) -> 0 <= k ->
+  Z.testbit (written_value p r dj) k =
+  if k <? pn p then Z.testbit (dj (k / pdw p)) (k mod pdw p) else false.
+Proof. exact written_value_testbit. Qed.
+Print Assumptions C14_written_value_bits.
+
+(* ========================================================================================== *)
+(* Attachment through a csr.Decoder (wiring.connect() from an initiator interface is signal identity) *)
+(* ========================================================================================== *)
+
+(* Decoder.add(mon.bus) places the window where the decoder's Case pattern is exact: aligned to the window's own
+   size and inside the decoder's address space (an explicit address must be a multiple of the window size) *)
+Theorem C14_decoder_window : forall p b d a, construct p = Ok b -> attach b d = Ok a ->
+  (d_addr d = VNone \/ exists x, d_addr d = VInt x /\ x mod 2 ^ b_aw b = 0) ->
+  Proofs.CsrDecoder.wf_sub (a_aw a) (a_sub a) /\ CsrDecoder.s_aw (a_sub a) = b_aw b /\ a_aw a = d_aw d.
+Proof.
+  intros p b d a Hc. destruct (construct_inv p b Hc) as [Hv Hb]. exact (attach_wf p b d a Hv Hb).
+Qed.
+Print Assumptions C14_decoder_window.
+
+(* the decoder's memory map reports the two registers under the window's name at window start + own address *)
+Theorem C14_decoder_layout : forall p b d a, construct p = Ok b -> attach b d = Ok a ->
+  MemoryMap.all_resources (a_map a) =
+  Ok [shifted (CsrDecoder.s_start (a_sub a)) (info_enable (pn p) (pdw p) (pal p));
+      shifted (CsrDecoder.s_start (a_sub a)) (info_pending (pn p) (pdw p) (pal p))].
+Proof.
+  intros p b d a Hc. destruct (construct_inv p b Hc) as [Hv Hb]. exact (attached_layout p b d a Hv Hb).
+Qed.
+Print Assumptions C14_decoder_layout.
+
+(* the monitor behind the decoder is the monitor itself run on the routed trace - an access inside the window
+   arrives with the window start subtracted, any other access arrives without strobes - and the decoder's r_data
+   is the monitor's.  Hence every theorem above holds behind a decoder at the addresses ITS map reports. *)
+Theorem C14_through_decoder : forall b a is, Proofs.CsrDecoder.wf_sub (a_aw a) (a_sub a) ->
+  run_attached b a is = run b (init b) (map (through a) is) /\
+  forall i, 0 <= ci_addr i < 2 ^ a_aw a ->
+    through a i = cinp_of (Proofs.CsrDecoder.route (a_sub a) (bus_of i)) (ci_src i).
+Proof.
+  intros b a is Hwf. split; [exact (run_attached_is_run b a is)|]. intros i. exact (through_route a i Hwf).
+Qed.
+Print Assumptions C14_through_decoder.
+
 (* ========================================================================================== *)
 (* non-vacuity                                                                                 *)
 (* ========================================================================================== *)
@@ -368,3 +418,24 @@ Proof.
     rewrite (C14_pending_clear_by_write ex_p ex_b ex_constructed ex_is 6 ex_tj_pe ex_dj_pe _ 0 Hpe eq_refl); [|cbn; lia].
     rewrite Vpe. vm_compute. reflexivity.
 Qed.
+
+(* the same monitor behind csr.Decoder(addr_width=4), window placed at 8: the trace with every address moved
+   into the window gives the same outputs; an access outside the window (address 1) is an idle cycle *)
+Definition ex_d : dparams := {| d_aw := 4; d_al := 0; d_addr := VInt 8 |}.
+Definition ex_a_dummy : attached :=
+  {| a_map := MemoryMap.MM 0 0 0 [] [] [] [] 0 false; a_aw := 0;
+     a_sub := {| CsrDecoder.s_aw := 0; CsrDecoder.s_start := 0; CsrDecoder.s_stop := 0 |} |}.
+Definition ex_a : attached := Eval vm_compute in match attach ex_b ex_d with Ok a => a | Err _ => ex_a_dummy end.
+Definition moved (i : cinp) : cinp :=
+  {| ci_addr := ci_addr i + 8; ci_rstb := ci_rstb i; ci_wstb := ci_wstb i; ci_wdata := ci_wdata i; ci_src := ci_src i |}.
+
+Example C14_decoder_nonvacuous :
+  attach ex_b ex_d = Ok ex_a /\ a_sub ex_a = {| CsrDecoder.s_aw := 2; CsrDecoder.s_start := 8; CsrDecoder.s_stop := 12 |} /\
+  8 mod 2 ^ b_aw ex_b = 0 /\
+  option_map (map (fun i => (MemoryMap.i_path i, MemoryMap.i_start i, MemoryMap.i_end i))) 
+             (match MemoryMap.all_resources (a_map ex_a) with Ok l => Some l | Err _ => None end) =
+    Some [([[MemoryMap.PStr 3]; [MemoryMap.PStr 1]], 8, 10); ([[MemoryMap.PStr 3]; [MemoryMap.PStr 2]], 10, 12)] /\
+  run_attached ex_b ex_a (map moved ex_is) = run ex_b (init ex_b) ex_is /\
+  through ex_a (cyc 9 true true 3 true false true) = cyc 1 true true 3 true false true /\
+  through ex_a (cyc 1 true true 3 true false true) = cyc 1 false false 3 true false true.
+Proof. vm_compute. repeat split; reflexivity. Qed.
